@@ -6,6 +6,11 @@ namespace Qwt.Iter
 
 inductive IterOp where
   | next | nextBack | len
+  /-- `Iterator::nth(k)` / `DoubleEndedIterator::nth_back(k)`: not overridden by the crate, hence the
+      provided methods of the standard library: `k` discarded calls of `next` (`next_back`), then one more -/
+  | nth (k : Nat) | nthBack (k : Nat)
+  /-- `by_ref().count()` and `by_ref().last()`: provided methods that drain the iterator through `next` -/
+  | count | last
   deriving DecidableEq, Repr
 
 structure WTIter where
@@ -13,15 +18,50 @@ structure WTIter where
   e : Nat
   deriving DecidableEq, Repr
 
+/-- `WTIterator::next` -/
+def stepNext (getU : Nat → M Nat) (it : WTIter) : WTIter × Out :=
+  if it.i < it.e then ({ it with i := it.i + 1 }, Out.ofOpt ((getU it.i).map some))
+  else (it, Out.none)
+
+/-- `WTIterator::next_back` -/
+def stepBack (getU : Nat → M Nat) (it : WTIter) : WTIter × Out :=
+  if it.i < it.e then ({ it with e := it.e - 1 }, Out.ofOpt ((getU (it.e - 1)).map some))
+  else (it, Out.none)
+
+/-- the provided `nth`: `k` calls whose results are dropped (a panic inside one of them propagates),
+    then the call whose result is returned -/
+def stepNth {σ : Type} (one : σ → σ × Out) : Nat → σ → σ × Out
+  | 0, it => one it
+  | k + 1, it =>
+    let r := one it
+    match r.2 with
+    | .fault f => (r.1, .fault f)
+    | _ => stepNth one k r.1
+
+/-- the provided `count` / `last`: call `next` until it answers `None`; `fuel` bounds the number of calls
+    by the number of remaining elements plus one -/
+def drain {σ : Type} (one : σ → σ × Out) : Nat → σ → Nat → Out → σ × Nat × Out
+  | 0, it, c, l => (it, c, l)
+  | fuel + 1, it, c, l =>
+    let r := one it
+    match r.2 with
+    | .none => (r.1, c, l)
+    | .fault f => (r.1, c, .fault f)
+    | o => drain one fuel r.1 (c + 1) o
+
 /-- one call on the iterator: new state and the outcome -/
 def step (getU : Nat → M Nat) (it : WTIter) : IterOp → WTIter × Out
-  | .next =>
-    if it.i < it.e then ({ it with i := it.i + 1 }, Out.ofOpt ((getU it.i).map some))
-    else (it, Out.none)
-  | .nextBack =>
-    if it.i < it.e then ({ it with e := it.e - 1 }, Out.ofOpt ((getU (it.e - 1)).map some))
-    else (it, Out.none)
+  | .next => stepNext getU it
+  | .nextBack => stepBack getU it
   | .len => (it, Out.ofVal (sub it.e it.i))
+  | .nth k => stepNth (stepNext getU) k it
+  | .nthBack k => stepNth (stepBack getU) k it
+  | .count =>
+    let r := drain (stepNext getU) (it.e - it.i + 1) it 0 .none
+    (r.1, match r.2.2 with | .fault f => .fault f | _ => .val r.2.1)
+  | .last =>
+    let r := drain (stepNext getU) (it.e - it.i + 1) it 0 .none
+    (r.1, r.2.2)
 
 /-- outcomes of a whole history of calls -/
 def run (getU : Nat → M Nat) : WTIter → List IterOp → List Out
@@ -37,9 +77,43 @@ def specStep (rem : List Nat) : IterOp → List Nat × Out
     | none => ([], Out.none)
     | some x => (rem.dropLast, Out.some x)
   | .len => (rem, Out.val rem.length)
+  | .nth k => (rem.drop (k + 1), match rem[k]? with | some x => Out.some x | none => Out.none)
+  | .nthBack k => (rem.take (rem.length - (k + 1)),
+      match rem.reverse[k]? with | some x => Out.some x | none => Out.none)
+  | .count => ([], Out.val rem.length)
+  | .last => ([], match rem.getLast? with | some x => Out.some x | none => Out.none)
 
 def specRun : List Nat → List IterOp → List Out
   | _, [] => []
   | rem, op :: ops => let r := specStep rem op; r.2 :: specRun r.1 ops
+
+/-! ### One-ended iterators (`QVectorIterator`, `BitVectorIter`, `BitVectorIntoIter`, the position
+iterators): a running index and an indexed read that answers `None` past the end.  The calls a
+client can make are `next` and the provided methods built on it. -/
+
+inductive FwdOp where
+  | next | nth (k : Nat) | count | last
+  deriving DecidableEq, Repr
+
+def FwdOp.toIterOp : FwdOp → IterOp
+  | .next => .next | .nth k => .nth k | .count => .count | .last => .last
+
+/-- `next` of an index-driven iterator: `self.i += 1; get(self.i - 1)` -/
+def fwdNext (getO : Nat → M (Option Nat)) (i : Nat) : Nat × Out := (i + 1, Out.ofOpt (getO i))
+
+/-- one call; `n` (the number of elements) only bounds the fuel of the draining methods -/
+def fwdStep (getO : Nat → M (Option Nat)) (n : Nat) (i : Nat) : FwdOp → Nat × Out
+  | .next => fwdNext getO i
+  | .nth k => stepNth (fwdNext getO) k i
+  | .count =>
+    let r := drain (fwdNext getO) (n - i + 1) i 0 .none
+    (r.1, match r.2.2 with | .fault f => .fault f | _ => .val r.2.1)
+  | .last =>
+    let r := drain (fwdNext getO) (n - i + 1) i 0 .none
+    (r.1, r.2.2)
+
+def fwdRun (getO : Nat → M (Option Nat)) (n : Nat) : Nat → List FwdOp → List Out
+  | _, [] => []
+  | i, op :: ops => let r := fwdStep getO n i op; r.2 :: fwdRun getO n r.1 ops
 
 end Qwt.Iter
